@@ -80,6 +80,7 @@ func (s *State) Branch(c *smt.Term) {
 type ObKind string
 
 type Obligation struct {
+	NoRetry bool // an obligation listed as a known finding: one attempt, no case-split / long second chance
 	Name   string
 	Kind   string
 	Func   string
